@@ -55,7 +55,16 @@ def target_name(node):
         return d
     if isinstance(node, ast.Subscript) and dotted(node.value) and isinstance(node.slice, ast.Name):
         return dotted(node.value) + "[]"
+    if isinstance(node, ast.Subscript) and dotted(node.value) and isinstance(node.slice, ast.Constant) and isinstance(node.slice.value, int):
+        return f"{dotted(node.value)}[{node.slice.value}]"
     return None
+
+
+def proj(i, n):
+    """projection of component i of a right-nested n-tuple"""
+    if n == 1:
+        return ""
+    return ".2" * i + (".1" if i < n - 1 else "")
 
 
 def lean_ident(name):
@@ -94,6 +103,8 @@ class Sym:
         self.tables = spec.get("tables", [])
         self.outs = spec["out"]
         self.option = spec.get("option", False)
+        self.inputs = {p: (lean_ident(p), t) for p, t in spec["params"]}
+        self.consts = spec.get("consts", {})
 
     # ---------------- expressions
     def expr(self, node, env):
@@ -109,6 +120,11 @@ class Sym:
             if name in ("np.pi", "numpy.pi", "math.pi"):
                 return "Transc.pi", "num"
             raise Untranslatable(f"free name {name}")
+        if isinstance(node, ast.Subscript) and target_name(node) in env:
+            v = env[target_name(node)]
+            if v is POISON:
+                raise Untranslatable(f"use of untranslated value {target_name(node)}")
+            return v
         if isinstance(node, ast.UnaryOp):
             if isinstance(node.op, ast.USub):
                 if isinstance(node.operand, ast.Constant) and isinstance(node.operand.value, (int, float)) and not isinstance(node.operand.value, bool):
@@ -270,7 +286,7 @@ class Sym:
         if stop and stop in self.assigned([s]):
             return self.finish(env)
         if isinstance(s, ast.Expr):     # docstring, logging call, ...
-            if isinstance(s.value, ast.Constant) or isinstance(s.value, ast.Call) and (dotted(s.value.func) or "").startswith(("logger.", "logging.", "warnings.")):
+            if isinstance(s.value, ast.Constant) or isinstance(s.value, ast.Call) and (dotted(s.value.func) or "").startswith(("logger.", "logging.", "warnings.", "print")):
                 return self.run(rest, env)
             raise Untranslatable("expression statement")
         if isinstance(s, ast.Pass):
@@ -292,26 +308,67 @@ class Sym:
                 for n in self.assigned([s]):
                     env2[n] = POISON
                 return self.run(rest, env2)
+            z = self.zeros(name, value, env2)
+            if z is not None:
+                return f"({z}{self.run(rest, env2)})"
             try:
                 e, t = self.expr(value, env)
             except Untranslatable:
-                env2[name] = POISON
+                # an input of the slice keeps standing for "the value this variable holds" (opaque right-hand sides such as
+                # frequency[index] or np.max(...) are inputs, not formulas); anything else is poisoned
+                env2[name] = self.inputs[name] if name in self.inputs else POISON
                 return self.run(rest, env2)
             self.counter += 1
             fresh = f"{lean_ident(name)}_{self.counter}"
             ann = " : α" if t == "num" else ""
             if t == "prop":
-                raise Untranslatable("boolean variable")
+                e, t, ann = f"(decide {e})", "bool", " : Bool"
             env2[name] = (fresh, t)
             return f"(let {fresh}{ann} := {e}; {self.run(rest, env2)})"
         if isinstance(s, ast.If):
-            c = self.cond(s.test, env)
+            static = self.static_test(s.test)
+            if static is not None:          # e.g. `if verbose > 0:` with the declared constant verbose = 0
+                return self.run(list(s.body if static else s.orelse) + rest, env)
+            try:
+                c = self.cond(s.test, env)
+            except Untranslatable:
+                if self.has_exit(s.body) or self.has_exit(s.orelse):
+                    raise
+                env2 = dict(env)        # an opaque test (e.g. on arrays) without exits: whatever it assigns is unknown from here on
+                for n in self.assigned([s]):
+                    env2[n] = self.inputs[n] if n in self.inputs else POISON
+                return self.run(rest, env2)
+            if not self.has_exit(s.body) and not self.has_exit(s.orelse):
+                # no return/continue/raise inside: merge the two branches instead of duplicating the continuation
+                names = sorted(self.assigned(s.body) | self.assigned(s.orelse))
+                ea, la = self.block(s.body, env)
+                eb, lb = self.block(s.orelse, env)
+                env2 = dict(env)
+                merged = []
+                for n in names:
+                    va, vb = ea.get(n), eb.get(n)
+                    if va is None or vb is None or va is POISON or vb is POISON or va[1] != vb[1]:
+                        if n in env2 or va is not None or vb is not None:
+                            env2[n] = POISON
+                        continue
+                    self.counter += 1
+                    fresh = f"{lean_ident(n)}_{self.counter}"
+                    merged.append((n, fresh, va, vb))
+                    env2[n] = (fresh, va[1])
+                if not merged:
+                    return self.run(rest, env2)
+                pat = merged[0][1] if len(merged) == 1 else "(" + ", ".join(m[1] for m in merged) + ")"
+                ta = merged[0][2][0] if len(merged) == 1 else "(" + ", ".join(m[2][0] for m in merged) + ")"
+                tb = merged[0][3][0] if len(merged) == 1 else "(" + ", ".join(m[3][0] for m in merged) + ")"
+                if len(merged) == 1:
+                    return f"(let {pat} := (if {c} then ({la}{ta}) else ({lb}{tb})); {self.run(rest, env2)})"
+                return f"(match (if {c} then ({la}{ta}) else ({lb}{tb})) with | {pat} => {self.run(rest, env2)})"
             a = self.run(list(s.body) + rest, env)
             b = self.run(list(s.orelse) + rest, env)
             return f"(if {c} then {a} else {b})"
         if isinstance(s, ast.Return):
             if self.spec.get("out") != ["return"]:
-                raise Untranslatable("return inside a slice")
+                return self.finish(env)      # the slice ends where the function returns: outputs are the tracked variables
             e, t = self.expr(s.value, env)
             return f"some {e}" if self.option else e
         if isinstance(s, ast.Continue):
@@ -319,6 +376,106 @@ class Sym:
         if isinstance(s, ast.Raise):
             return self.exit_value("raise")
         raise Untranslatable(type(s).__name__)
+
+    def zeros(self, name, value, env):
+        """`x = np.zeros(k)` with a literal k: one pseudo variable per entry; returns the let text or None"""
+        if isinstance(value, ast.Call) and dotted(value.func) in ("np.zeros", "numpy.zeros") and len(value.args) == 1 \
+                and isinstance(value.args[0], ast.Constant) and isinstance(value.args[0].value, int) and not value.keywords:
+            lets = ""
+            for k in range(value.args[0].value):
+                self.counter += 1
+                fresh = f"{lean_ident(name)}_{k}_{self.counter}"
+                env[f"{name}[{k}]"] = (fresh, "num")
+                lets += f"let {fresh} : α := (n# 0); "
+            env[name] = POISON
+            return lets
+        return None
+
+    def has_exit(self, stmts):
+        return any(isinstance(n, (ast.Return, ast.Continue, ast.Raise, ast.Break)) for s in stmts for n in ast.walk(s))
+
+    def static_test(self, test):
+        """value of a test that only involves declared constants (spec['consts']) and literals, else None"""
+        names = {n.id for n in ast.walk(test) if isinstance(n, ast.Name)}
+        if not names or not names <= set(self.consts):
+            return None
+        if any(isinstance(n, (ast.Call, ast.Attribute, ast.Subscript)) for n in ast.walk(test)):
+            return None
+        try:
+            return bool(eval(compile(ast.Expression(test), "<test>", "eval"), {"__builtins__": {}}, dict(self.consts)))
+        except Exception:
+            return None
+
+    def block(self, stmts, env):
+        """exit-free statements: returns (environment afterwards, text of the let-bindings)"""
+        env = dict(env)
+        lets = ""
+        for i, s in enumerate(stmts):
+            if isinstance(s, ast.Pass) or isinstance(s, ast.Expr):
+                if isinstance(s, ast.Expr) and not (isinstance(s.value, ast.Constant) or isinstance(s.value, ast.Call)
+                                                    and (dotted(s.value.func) or "").startswith(("logger.", "logging.", "warnings.", "print"))):
+                    raise Untranslatable("expression statement")
+                continue
+            if isinstance(s, ast.If):
+                static = self.static_test(s.test)
+                if static is not None:
+                    env, l2 = self.block(list(s.body if static else s.orelse), env)
+                    lets += l2
+                    continue
+                try:
+                    c = self.cond(s.test, env)
+                except Untranslatable:
+                    for n in self.assigned([s]):
+                        env[n] = self.inputs[n] if n in self.inputs else POISON
+                    continue
+                ea, la = self.block(s.body, env)
+                eb, lb = self.block(s.orelse, env)
+                merged = []
+                for n in sorted(self.assigned(s.body) | self.assigned(s.orelse)):
+                    va, vb = ea.get(n), eb.get(n)
+                    if va is None or vb is None or va is POISON or vb is POISON or va[1] != vb[1]:
+                        if n in env or va is not None or vb is not None:
+                            env[n] = POISON
+                        continue
+                    merged.append((n, va, vb))
+                if merged:
+                    self.counter += 1
+                    pk = f"if_{self.counter}"
+                    ta = merged[0][1][0] if len(merged) == 1 else "(" + ", ".join(m[1][0] for m in merged) + ")"
+                    tb = merged[0][2][0] if len(merged) == 1 else "(" + ", ".join(m[2][0] for m in merged) + ")"
+                    lets += f"let {pk} := (if {c} then ({la}{ta}) else ({lb}{tb})); "
+                    for i, (n, va, vb) in enumerate(merged):
+                        self.counter += 1
+                        fresh = f"{lean_ident(n)}_{self.counter}"
+                        lets += f"let {fresh} := {pk}{proj(i, len(merged))}; "
+                        env[n] = (fresh, va[1])
+                continue
+            if isinstance(s, (ast.Assign, ast.AugAssign)) and (isinstance(s, ast.AugAssign) or len(s.targets) == 1):
+                tgt = s.target if isinstance(s, ast.AugAssign) else s.targets[0]
+                name = target_name(tgt)
+                value = s.value if isinstance(s, ast.Assign) else ast.BinOp(left=s.target, op=s.op, right=s.value)
+                if name is None:
+                    for n in self.assigned([s]):
+                        env[n] = POISON
+                    continue
+                z = self.zeros(name, value, env)
+                if z is not None:
+                    lets += z
+                    continue
+                try:
+                    e, t = self.expr(value, env)
+                    if t == "prop":
+                        e, t = f"(decide {e})", "bool"
+                except Untranslatable:
+                    env[name] = self.inputs[name] if name in self.inputs else POISON
+                    continue
+                self.counter += 1
+                fresh = f"{lean_ident(name)}_{self.counter}"
+                lets += f"let {fresh}{' : α' if t == 'num' else ''} := {e}; "
+                env[name] = (fresh, t)
+                continue
+            raise Untranslatable(type(s).__name__)
+        return env, lets
 
     def prologue(self, stmts, env):
         """statements on the way to a nested loop: only plain top-level assignments are interpreted; everything else
@@ -330,6 +487,10 @@ class Sym:
                 tgt = s.target if isinstance(s, ast.AugAssign) else s.targets[0]
                 name = dotted(tgt)
                 value = s.value if isinstance(s, ast.Assign) else ast.BinOp(left=s.target, op=s.op, right=s.value)
+                z = self.zeros(name, value, env) if name is not None else None
+                if z is not None:
+                    lets.append(z)
+                    continue
                 if name is not None:
                     try:
                         e, t = self.expr(value, env)
@@ -405,6 +566,8 @@ def translate(repo, spec):
         env = {p: (lean_ident(p), t) for p, t in params}
         for t_ in spec.get("tables", []):
             env[t_] = (lean_ident(t_), "table")
+        for c_, v_ in spec.get("consts", {}).items():
+            env[c_] = number(v_)
         if "lambda" in spec:
             lam = find_lambda(tree, spec["lambda"])
             names = [a.arg for a in lam.args.args]
@@ -501,6 +664,14 @@ TARGETS = [
          out=["self.ns.amplitude", "self.ew.amplitude", "self.degrees_from_north"], out_types=["num", "num", "num"], stop_before="self.meta"),
     dict(group="Sesame", name="clarity_thresholds", file="hvsrpy/sesame.py", func="clarity", start_at="epsilon", stop_before="criteria",
          params=[("mc_peak_frq", "num")], out=["epsilon", "theta"], out_types=["num", "num"]),
+    # SESAME reliability criteria i-iii as functions of the peak frequency and of max sigma_A in the +-octave band
+    dict(group="Sesame", name="reliability_criteria", file="hvsrpy/sesame.py", func="reliability", start_after="mc_peak_frq", consts={"verbose": 0},
+         params=[("windowlength", "num"), ("passing_window_count", "num"), ("mc_peak_frq", "num"), ("sigma_a_max", "num")],
+         out=["criteria[0]", "criteria[1]", "criteria[2]"], out_types=["num", "num", "num"]),
+    # SESAME clarity criteria iii-vi as functions of the peak, of the peaks of the +-sigma curves and of sigma_A at the peak
+    dict(group="Sesame", name="clarity_criteria", file="hvsrpy/sesame.py", func="clarity", start_after="mc_peak_amp", consts={"verbose": 0},
+         params=[("mc_peak_frq", "num"), ("mc_peak_amp", "num"), ("f_plus", "num"), ("f_minus", "num"), ("fn_std", "num"), ("sigma_a_peak", "num")],
+         out=["criteria[2]", "criteria[3]", "criteria[4]", "criteria[5]"], out_types=["num"] * 4),
     # frequency-domain window rejection: the accept decision of the inner loop (None = window skipped, its masks are kept) ...
     dict(group="Fdwra", name="fdwra_keep", file="hvsrpy/window_rejection.py", func="_frequency_domain_window_rejection",
          descend=["c_iteration", "c_peak"], params=[("c_valid", "bool"), ("c_peak", "num"), ("lower_bound", "num"), ("upper_bound", "num")],
